@@ -1,1 +1,42 @@
-From Coq Require Import ZArith.
+(* C11 — The disassembly is a faithful, byte-complete listing of what decodes.
+   Statements only; proofs in proofs/DecProofs.v and proofs/ListingProofs.v.  In the model, as in the
+   code, one routine (decode_items) produces both the printed lines and the delivered calls; the reading
+   of a listing back into operations (spec/Listing.v) is written independently of it.
+   The rendering of a payload to text (fmt verbs, Color.String) is trusted / mirrored by the harness. *)
+From Coq Require Import ZArith Bool List.
+From IVG Require Import SF NumCodec Color Calls Decoder DecProofs Listing ListingProofs.
+Import ListNotations.
+Local Open Scope Z_scope.
+
+(* succeeds exactly when Decode accepts, and fails with the same error otherwise *)
+Theorem disasm_accepts_iff : forall b, snd (disassemble b) = snd (decode_calls [] b).
+Proof. exact ListingProofs.disasm_accepts_iff. Qed.
+Print Assumptions disasm_accepts_iff.
+
+(* the hex column, concatenated in line order, reproduces the input exactly *)
+Theorem disasm_bytes : forall b lines, disassemble b = (Some lines, Done) -> concat (map fst lines) = b.
+Proof. exact ListingProofs.disasm_bytes. Qed.
+Print Assumptions disasm_bytes.
+
+(* reading the instruction lines back (spec/Listing.v) yields exactly the operations delivered: one
+   instruction line per call (explicit or implicit) with the operand values the decoder delivers *)
+Theorem disasm_calls : forall os b its, decode_items os b = (its, Done) ->
+  exists mits vb pal iits,
+    its = mits ++ ICall (CReset vb pal) :: iits /\ calls_of mits = [] /\
+    calls_of its = CReset vb pal :: calls_of iits /\
+    read_listing (payloads iits) = (PIdle, calls_of iits).
+Proof. exact ListingProofs.disasm_calls. Qed.
+Print Assumptions disasm_calls.
+
+Theorem listing_matches_calls : forall fuel drawing b its out,
+  dec_ops fuel drawing b = (its, Done) ->
+  fold_left lstep (payloads its) (PIdle, out) = (PIdle, out ++ calls_of its).
+Proof. exact ListingProofs.listing_matches_calls. Qed.
+Print Assumptions listing_matches_calls.
+
+Example ex_listing :
+  let b := [137; 73; 86; 71; 0; 192; 128; 128; 1; 130; 132; 134; 136; 225] in
+  snd (decode_items [] b) = Done /\
+  read_listing (payloads (skipn 3 (fst (decode_items [] b)))) =
+    (PIdle, [CStartPath 0 0 0; CDraw opL [of_Z F32 1; of_Z F32 2]; CDraw opL [of_Z F32 3; of_Z F32 4]; CEndPath]).
+Proof. vm_compute. split; reflexivity. Qed.
